@@ -1,6 +1,8 @@
 package main
 
 import (
+	"strings"
+
 	btapb "cloud.google.com/go/bigtable/admin/apiv2/adminpb"
 )
 
@@ -9,11 +11,11 @@ import (
 func init() {
 	register(&PropDef{
 		ID: "C14", Level: "exploration", Quick: 5000, Thorough: 500000, QuickCap: 100,
-		Rule: "each run = one engine (disk: clean restarts and kill-images between requests), 1-40 requests over 2 parents x 3 table ids mixing CreateTable/DeleteTable/GetTable/ListTables, ModifyColumnFamilies with 1-3 modifications (create/update/drop, failing at position k, drop then re-create), DropRowRange (prefix equal to a key, ending in 0xff, matching nothing; all rows) and data requests; after every request the touched rows, and at a drawn frequency every table's schema and rows, are compared with the registry model; distinct = hash of (engine, op shapes); non-trivial = at least 2 requests",
-		Real: []string{"bttest admin handlers (CreateTable, DeleteTable, GetTable, ListTables, ModifyColumnFamilies, DropRowRange)", "data handlers", "all three engines; start-up recovery on disk restarts"},
-		Stub: []string{"gRPC transport (direct calls)", "process kill = directory image between requests"},
+		Rule:   "each run = one engine (disk: clean restarts and kill-images between requests), 1-40 requests over 2 parents x 3 table ids mixing CreateTable/DeleteTable/GetTable/ListTables, ModifyColumnFamilies with 1-3 modifications (create/update/drop, failing at position k, drop then re-create), DropRowRange (prefix equal to a key, ending in 0xff, matching nothing; all rows) and data requests; after every request the touched rows, and at a drawn frequency every table's schema and rows, are compared with the registry model; distinct = hash of (engine, op shapes); non-trivial = at least 2 requests",
+		Real:   []string{"bttest admin handlers (CreateTable, DeleteTable, GetTable, ListTables, ModifyColumnFamilies, DropRowRange)", "data handlers", "all three engines; start-up recovery on disk restarts"},
+		Stub:   []string{"gRPC transport (direct calls)", "process kill = directory image between requests"},
 		Assume: []string{"NotFound / AlreadyExists are required where the statement names them, any error otherwise", "the order of ListTables is unspecified (sorted before comparing)", "an empty row-key prefix is not sent (unspecified)"},
-		Run: runC14,
+		Run:    runC14,
 	})
 	expectedProbes["C14"] = []string{"c14.modify_fail_at_k", "c14.drop_family_with_data", "c14.recreate_table", "c14.drop_prefix_hit", "c14.deleted_table_request", "restart"}
 }
@@ -23,92 +25,102 @@ var c14IDs = []string{"t", "t2", "u"}
 var c14Prefixes = []string{"a", "a\x00", "ab", "a\xff", "\xff", "zz", "b", "\x00", "a\x00\x00"}
 var c14Fams = []string{"f1", "f2", "g"}
 
-func runC14(r *Run) {
-	cfg := r.T.S("cfg")
-	engine := pickEngine(r, cfg)
-	nOps := 1 + cfg.Intn(40)
-	clk := NewClock(1_700_000_000_000_000, 1_700_000_000_000_000_000)
+// makeC14Gen returns the admin+data operation generator shared by C14, C08 and C17.
+func makeC14Gen(r *Run) func(d *draws, m *btModel, i int) btOp {
 	gen := &btGen{fams: []string{"f1", "f2"}, unknown: "g"}
 	deleted := map[string]bool{}
 	pickTable := func(d *draws, m *btModel) string {
 		// prefer existing tables, sometimes a missing / deleted one
-		names := m.tableNames()
+		var names []string
+		for _, n := range m.tableNames() {
+			if !strings.Contains(n, "/instances/side/") { // tables of a second client (C08)
+				names = append(names, n)
+			}
+		}
 		if len(names) > 0 && d.w(6, 1) == 0 {
 			return names[d.n(len(names))]
 		}
 		d.n(1)
 		return c14Parents[d.n(2)] + "/tables/" + c14IDs[d.n(3)]
 	}
+	return func(d *draws, m *btModel, i int) btOp {
+		kind := d.w(5, 2, 2, 2, 6, 3, 1, 8, 2)
+		if len(m.Tables) == 0 && kind != 0 && d.n(4) != 3 {
+			kind = 0
+		}
+		switch kind {
+		case 0:
+			fams := map[string]*btapb.GcRule{}
+			nf := d.w(1, 3, 3)
+			for k := 0; k < 2; k++ {
+				g := gcRuleGen(d, 0)
+				if k < nf {
+					fams[c14Fams[k]] = g
+				}
+			}
+			p, id := c14Parents[d.w(3, 1)], c14IDs[d.w(3, 2, 1)]
+			if deleted[p+"/tables/"+id] {
+				r.Probe("c14.recreate_table")
+			}
+			return btOp{Kind: "CreateTable", Parent: p, TableID: id, Fams: fams}
+		case 1:
+			t := pickTable(d, m)
+			if m.Tables[t] != nil {
+				deleted[t] = true
+			}
+			return btOp{Kind: "DeleteTable", Table: t}
+		case 2:
+			return btOp{Kind: "GetTable", Table: pickTable(d, m)}
+		case 3:
+			return btOp{Kind: "ListTables", Parent: c14Parents[d.n(2)]}
+		case 4:
+			t := pickTable(d, m)
+			nm := 1 + d.w(4, 3, 2)
+			var mods []*btapb.ModifyColumnFamiliesRequest_Modification
+			for k := 0; k < 3; k++ {
+				id := c14Fams[d.n(3)]
+				g := gcRuleGen(d, 0)
+				mod := &btapb.ModifyColumnFamiliesRequest_Modification{Id: id}
+				switch d.w(3, 2, 3) {
+				case 0:
+					mod.Mod = &btapb.ModifyColumnFamiliesRequest_Modification_Create{Create: &btapb.ColumnFamily{GcRule: g}}
+				case 1:
+					mod.Mod = &btapb.ModifyColumnFamiliesRequest_Modification_Update{Update: &btapb.ColumnFamily{GcRule: g}}
+				case 2:
+					mod.Mod = &btapb.ModifyColumnFamiliesRequest_Modification_Drop{Drop: true}
+				}
+				if k < nm {
+					mods = append(mods, mod)
+				}
+			}
+			return btOp{Kind: "Modify", Table: t, Mods: mods}
+		case 5:
+			return btOp{Kind: "DropPrefix", Table: pickTable(d, m), Prefix: c14Prefixes[d.n(len(c14Prefixes))]}
+		case 6:
+			return btOp{Kind: "DropAll", Table: pickTable(d, m)}
+		case 7:
+			t := pickTable(d, m)
+			if deleted[t] && m.Tables[t] == nil {
+				r.Probe("c14.deleted_table_request")
+			}
+			// data request with families the table may or may not have
+			gen.fams = []string{"f1", "f2"}
+			return btOp{Kind: "MutateRow", Table: t, Key: btRowKeys[d.n(len(btRowKeys))], Muts: gen.mutations(d, 3, false)}
+		default:
+			t := pickTable(d, m)
+			return btOp{Kind: "ReadAll", Table: t}
+		}
+	}
+}
+
+func runC14(r *Run) {
+	cfg := r.T.S("cfg")
+	engine := pickEngine(r, cfg)
+	nOps := 1 + cfg.Intn(40)
+	clk := NewClock(1_700_000_000_000_000, 1_700_000_000_000_000_000)
 	spec := seqSpec{
 		Engine: engine, NOps: nOps, FullEvery: []int{1, 4, 9}[cfg.Intn(3)], Restarts: true,
-		Gen: func(d *draws, m *btModel, i int) btOp {
-			kind := d.w(5, 2, 2, 2, 6, 3, 1, 8, 2)
-			if len(m.Tables) == 0 && kind != 0 && d.n(4) != 3 {
-				kind = 0
-			}
-			switch kind {
-			case 0:
-				fams := map[string]*btapb.GcRule{}
-				nf := d.w(1, 3, 3)
-				for k := 0; k < 2; k++ {
-					g := gcRuleGen(d, 0)
-					if k < nf {
-						fams[c14Fams[k]] = g
-					}
-				}
-				p, id := c14Parents[d.w(3, 1)], c14IDs[d.w(3, 2, 1)]
-				if deleted[p+"/tables/"+id] {
-					r.Probe("c14.recreate_table")
-				}
-				return btOp{Kind: "CreateTable", Parent: p, TableID: id, Fams: fams}
-			case 1:
-				t := pickTable(d, m)
-				if m.Tables[t] != nil {
-					deleted[t] = true
-				}
-				return btOp{Kind: "DeleteTable", Table: t}
-			case 2:
-				return btOp{Kind: "GetTable", Table: pickTable(d, m)}
-			case 3:
-				return btOp{Kind: "ListTables", Parent: c14Parents[d.n(2)]}
-			case 4:
-				t := pickTable(d, m)
-				nm := 1 + d.w(4, 3, 2)
-				var mods []*btapb.ModifyColumnFamiliesRequest_Modification
-				for k := 0; k < 3; k++ {
-					id := c14Fams[d.n(3)]
-					g := gcRuleGen(d, 0)
-					mod := &btapb.ModifyColumnFamiliesRequest_Modification{Id: id}
-					switch d.w(3, 2, 3) {
-					case 0:
-						mod.Mod = &btapb.ModifyColumnFamiliesRequest_Modification_Create{Create: &btapb.ColumnFamily{GcRule: g}}
-					case 1:
-						mod.Mod = &btapb.ModifyColumnFamiliesRequest_Modification_Update{Update: &btapb.ColumnFamily{GcRule: g}}
-					case 2:
-						mod.Mod = &btapb.ModifyColumnFamiliesRequest_Modification_Drop{Drop: true}
-					}
-					if k < nm {
-						mods = append(mods, mod)
-					}
-				}
-				return btOp{Kind: "Modify", Table: t, Mods: mods}
-			case 5:
-				return btOp{Kind: "DropPrefix", Table: pickTable(d, m), Prefix: c14Prefixes[d.n(len(c14Prefixes))]}
-			case 6:
-				return btOp{Kind: "DropAll", Table: pickTable(d, m)}
-			case 7:
-				t := pickTable(d, m)
-				if deleted[t] && m.Tables[t] == nil {
-					r.Probe("c14.deleted_table_request")
-				}
-				// data request with families the table may or may not have
-				gen.fams = []string{"f1", "f2"}
-				return btOp{Kind: "MutateRow", Table: t, Key: btRowKeys[d.n(len(btRowKeys))], Muts: gen.mutations(d, 3, false)}
-			default:
-				t := pickTable(d, m)
-				return btOp{Kind: "ReadAll", Table: t}
-			}
-		},
+		Gen: makeC14Gen(r),
 		AfterOp: func(op btOp, resp btResp, before, after *btModel) {
 			bt := before.Tables[op.Table]
 			switch op.Kind {
